@@ -70,6 +70,7 @@ func sfail(format string, a ...interface{}) { panic(specError{fmt.Sprintf(format
 type Env struct {
 	x     *Exec
 	cur   *State
+	loc   *State // state used for local variables, range indexes and iterators: old(e) does not rewind these
 	old   *State
 	vars  map[string]SVal
 	pkg   *types.Package
@@ -77,6 +78,20 @@ type Env struct {
 	loop  *loopInfo     // for visited()
 	at    token.Pos     // program point (scoping of local names)
 	depth int
+}
+
+func (e *Env) locState(ad Addr) *State {
+	if ad.Kind == aLocal && e.loc != nil {
+		return e.loc
+	}
+	return e.cur
+}
+
+func (e *Env) locs() *State {
+	if e.loc != nil {
+		return e.loc
+	}
+	return e.cur
 }
 
 func (e *Env) child() *Env {
@@ -352,7 +367,7 @@ func (e *Env) evalIdent(name string) SVal {
 	if e.fn != nil {
 		if a := e.x.localByNameAt(e.fn, name, e.at); a != nil {
 			ad := e.x.resolveAddr(a)
-			return SVal{T: e.x.loadAddr(e.cur, ad), Ty: goT(ad.Typ)}
+			return SVal{T: e.x.loadAddr(e.locState(ad), ad), Ty: goT(ad.Typ)}
 		}
 	}
 	if e.pkg != nil {
@@ -813,7 +828,7 @@ func (e *Env) evalCall(n *ECall) SVal {
 			sfail("no local named %s", id.Name)
 		}
 		ad := x.resolveAddr(a)
-		return SVal{T: x.loadAddr(e.cur, ad), Ty: goT(ad.Typ)}
+		return SVal{T: x.loadAddr(e.locState(ad), ad), Ty: goT(ad.Typ)}
 	case "same":
 		// same(a, b): identical values (for floats: bitwise the same value incl. NaN, unlike Go ==)
 		a, b := e.unify(arg(0), arg(1))
@@ -843,6 +858,9 @@ func (e *Env) evalCall(n *ECall) SVal {
 	case "abs":
 		v := e.concrete(arg(0))
 		return SVal{T: T(SF64, "(fp.abs %s)", v.T.S), Ty: v.Ty}
+	case "round":
+		v := e.concrete(arg(0))
+		return SVal{T: T(SF64, "(fp.roundToIntegral RNA %s)", v.T.S), Ty: v.Ty}
 	case "isNaN":
 		return boolV(T(SBool, "(fp.isNaN %s)", arg(0).T.S))
 	case "cnt":
@@ -863,7 +881,7 @@ func (e *Env) evalCall(n *ECall) SVal {
 		}
 		for _, li := range x.loops {
 			if fmt.Sprint(li.num) == nl.V && li.iter != nil {
-				vs, ok := e.cur.iters[li.iter]
+				vs, ok := e.locs().iters[li.iter]
 				if !ok {
 					sfail("visitedIn(%s): iterator not started", nl.V)
 				}
@@ -880,7 +898,7 @@ func (e *Env) evalCall(n *ECall) SVal {
 		if e.loop == nil || e.loop.iter == nil {
 			sfail("visited() outside a map-range loop annotation")
 		}
-		vs, ok := e.cur.iters[e.loop.iter]
+		vs, ok := e.locs().iters[e.loop.iter]
 		if !ok {
 			sfail("no iterator state")
 		}
@@ -899,7 +917,7 @@ func (e *Env) evalCall(n *ECall) SVal {
 			}
 			for _, li := range x.loops {
 				if fmt.Sprint(li.num) == nl.V && li.idxAlloc != nil {
-					v, ok := e.cur.locals[li.idxAlloc]
+					v, ok := e.locs().locals[li.idxAlloc]
 					if !ok {
 						sfail("idx(%s): range index not initialised", nl.V)
 					}
@@ -909,7 +927,7 @@ func (e *Env) evalCall(n *ECall) SVal {
 			sfail("idx(%s): no such slice-range loop", nl.V)
 		}
 		if e.loop != nil && e.loop.idxAlloc != nil {
-			v, ok := e.cur.locals[e.loop.idxAlloc]
+			v, ok := e.locs().locals[e.loop.idxAlloc]
 			if !ok {
 				sfail("idx(): range index not initialised")
 			}
